@@ -293,7 +293,16 @@ func genC05Shape(rt *rapid.T, extra func(g *c05gen)) (*c05Case, int, int) {
 					j.mkeys = append(j.mkeys, "cfg")
 					j.matrixY = append(j.matrixY, "  cfg: [{a: 1}, {a: 2}]")
 				}
-				switch g.i("inc", 0, 4) {
+				switch g.i("inc", 0, 6) {
+				case 5:
+					// an element of unknown shape first, then elements whose shape is known
+					j.mopen = true
+					j.mkeys = append(j.mkeys, "arch", "extra")
+					j.matrixY = append(j.matrixY, "  include:", "    - ${{ fromJSON(github.event.client_payload.e) }}", "    - ${{ fromJSON('{\"os\":\"bsd\",\"arch\":\"arm\"}') }}", "    - os: linux", "      extra: yes")
+				case 6:
+					j.mopen = true
+					j.mkeys = append(j.mkeys, "arch")
+					j.matrixY = append(j.matrixY, "  include:", "    - ${{ fromJSON('{\"os\":\"bsd\",\"arch\":\"arm\"}') }}", "    - ${{ fromJSON(github.event.client_payload.e) }}")
 				case 0:
 					j.mkeys = append(j.mkeys, "extra")
 					j.matrixY = append(j.matrixY, "  include:", "    - os: linux", "      "+g.spell("extra")+": yes")
